@@ -11,29 +11,29 @@ import re
 import vf
 
 META = {
-    "text": "Theorem analysis_sound (Coq, no axioms): for every program of the callback language, if the abstract interpreter "
-            "accepts, no trace of any exported callback started in a read-only context (isQuery or nestedView>0; amounts "
-            "non-negative unless fork version >= 5) performs a state mutator, including everything contract code called from "
-            "the callback does through further callbacks (RunLua = any finite sequence of exported callbacks, Q unchanged, V only "
-            "able to become true).  The obligation `check Gen.callbacks = true` over the term translated from the current "
-            "contract/*.go source is closed by vm_compute on every run.  F13 (negative amount, fork version 4) is outside the "
-            "hypothesis and reported as a known finding from the translated term.  The read-only hypothesis is derived, not "
-            "assumed, for view functions: Theorem counter_discipline (VmGuard/Balance.v, no axioms) gives the semantics of the "
-            "view-depth counter ctx.nestedView (IncV / DecV, deferred statements run at every exit, callees and contract code may "
-            "panic) and proves that a program accepted by counter_ok restores the counter on every path through every function "
-            "and keeps it above its entry value while the body of a view function runs; counter_ok over all translated functions "
-            "of package contract is closed by vm_compute on every run, every other syntactic use of isQuery / nestedView / "
-            "isFeeDelegation / isView must be in the reviewed list (isQuery is never assigned; contexts are never copied), and "
-            "C20_view_function_readonly composes both analyses.  The binding of a running Lua state to its own context "
-            "(callbacks resolve contexts[service]) is derived too: VmGuard/Slots.v models the context-slot allocator and proves for "
-            "every worker count and every history of allocations / releases / transaction stores that a query never gets a slot "
-            "of transaction execution, live queries have distinct slots and a live query's slot holds its own context; the real "
-            "allocContextSlot / freeContextSlot text is extracted each run, executed natively on all small histories with these "
-            "predicates and compared with the model by vm_compute.",
-    "note": "No implementation run is possible (LuaJIT sources absent).  Trusted: the translator gen_vmguard (no type information: "
-            "method calls resolved by name and arity to every candidate), its reviewed lists of mutators / restore operations and "
-            "the reviewed list of flag uses, luaViewStart / luaViewEnd being called in pairs by the VM, the C-side scanner, read-only SQLite connections for queries, Coq kernel/vm_compute.",
-    "technique": "verified abstract interpreter (proof by reflection) over a source-to-Gallina translation of the host API",
+    "text": "15 theorems (Coq, no axioms).  FULL for every program of the callback language: if `check` accepts, no trace of an "
+            "entry point started in a read-only context performs a forbidden mutator, contract code called back included "
+            "(C20_analysis_sound); if `counter_ok` accepts, every path through every function restores ctx.nestedView and keeps "
+            "it positive while a view function body runs (C20_counter_analysis_sound); for every worker count and history of "
+            "slot allocations / releases / transaction stores a query never gets a transaction slot and its slot holds its own "
+            "context (C20_alloc_never_returns_reserved_slot, C20_distinct_live_contexts_distinct_slots, "
+            "C20_callbacks_see_own_context); C20_view_function_readonly composes them, so 'isQuery or nestedView>0' is derived "
+            "for view functions.  PARTIAL: the read-only theorems assume amount >= 0 or fork version >= 5; without it F13 "
+            "(luaSendAmount reaches SendBalance with a negative amount, version 4) is recomputed from the translated source each "
+            "run: known keys C20:F13:*.  Tie, every run (no VM can be built here): gen_vmguard translates all 255 Go functions "
+            "of package contract, lib/g6_cscan the Lua-registered C functions; obligations closed by vm_compute: check, "
+            "counter_ok, reviewed C inventory, classified callees, reviewed uses of the context flags (isQuery never assigned, "
+            "contexts never copied) and of the context table; gen_vmguard_slots extracts the real allocContextSlot / "
+            "freeContextSlot text, runs it natively on ~64 000 histories with direct predicates and compares with the model.",
+    "note": "Trusted: Coq kernel + vm_compute (no axioms); the translators gen_vmguard (go/parser, no types: calls resolved by name "
+            "and arity to every candidate), lib/g6_cscan (structural C parse, textual guard recognition) and gen_vmguard_slots; "
+            "the reviewed tables VmGuard/Reviewed.v (mutators, restore operations, pure callees, flag uses, Lua-running cgo entry "
+            "points, slot sites) and VmGuard/CSide.v; LuaJIT: contract code reaches state only through the exported callbacks, "
+            "luaViewStart / luaViewEnd are called in pairs, a state passes its own service number; read-only SQLite connection "
+            "for queries; a transaction's service is BlockFactory or ChainService; NumWorkers >= 1; querySync serialises the "
+            "allocator.  Not verified: the Lua VM itself, sqlite binding, gas / timeouts.  No implementation run of contracts "
+            "is possible; the failing input of a violation is the path / history through the translated or extracted source.",
+    "technique": "verified abstract interpreters (proof by reflection) over a source-to-Gallina translation + executable slot-allocator model compared with the natively executed source",
 }
 
 C_FILES = ["vm.c", "db_module.c", "contract_module.c", "system_module.c", "state_module.c", "crypto_module.c", "name_module.c", "util.c"]
@@ -145,7 +145,7 @@ def gen_slots(ctx):
     rc, out = vf.sh(["go", "build", "-o", hbin, "."], cwd=hdir, env=env, timeout=600)
     if rc != 0:
         return {"build_error": out[-2500:]}
-    big = (3, 8, 7) if ctx.tier == "quick" else (3, 9, 9)
+    big = (3, 7, 7) if ctx.tier == "quick" else (3, 9, 9)
     rc, out = vf.sh([hbin] + [str(x) for x in big], timeout=900)
     recs, hang = [], None
     for l in out.splitlines():
@@ -280,11 +280,12 @@ def run(ctx):
     cres = gen_c(ctx, cbs)          # both generated files before the proofs are built
     slots = gen_slots(ctx)
     pr = ctx.prove()
-    ctx.cov["trusted_base"] = ["Coq 8.16.1 kernel + vm_compute", "gen/gen_vmguard translator and its reviewed mutator / restore lists",
-                               "RunLua abstraction of executor.call", "Python scanner of the C modules", "read-only SQLite connection for queries"]
+    ctx.cov["trusted_base"] = ["Coq 8.16.1 kernel + vm_compute", "gen/gen_vmguard, gen/gen_vmguard_slots translators and the reviewed tables of VmGuard/Reviewed.v, CSide.v",
+                               "Python scanner of the C modules", "read-only SQLite connection for queries", "LuaJIT (not in /repo)"]
     ctx.assumptions = ["amounts are non-negative or fork version >= 5 (F13 otherwise)",
                        "contract code reaches the state only through the exported callbacks (LuaJIT sandbox)",
-                       "the VM calls luaViewStart / luaViewEnd in matched pairs (the only counter operations outside executor.call)"]
+                       "the VM calls luaViewStart / luaViewEnd in matched pairs (the only counter operations outside executor.call)",
+                       "a transaction's ctx.service is BlockFactory or ChainService; NumWorkers >= 1; querySync serialises the slot allocator"]
     ctx.coq_make(["Gen/CCallbacks.vo", "VmGuard/CSide.vo"])
     # ---- paths
     # one evaluation over every read-only context; split by the amount hypothesis afterwards
